@@ -182,6 +182,11 @@ func runC18(env *Env, tier string) {
 			sc.end = (sc.start + 30) % 86400
 		}
 	}
+	fullDay := ch.Chance("fullday", 1, 10)
+	if fullDay {
+		// StartTime == EndTime: one window per day that rolls over at that time
+		sc.end = sc.start
+	}
 	extra := map[string]string{config.StartTime: fmtTod(sc.start), config.EndTime: fmtTod(sc.end)}
 	if sc.locName != "UTC" {
 		extra[config.TimeZone] = sc.locName
